@@ -57,6 +57,8 @@ type DTLSR struct {
 	purgeTime time.Duration
 	// dataMutex is a RW-mutex which protects change operations to the algorithm's metadata
 	dataMutex sync.RWMutex
+	// sentMutex serializes the read-modify-write cycles on a broadcast bundle's list of already served peers
+	sentMutex sync.Mutex
 }
 
 func NewDTLSR(c *Core, config DTLSRConfig) *DTLSR {
@@ -215,8 +217,35 @@ func (dtlsr *DTLSR) NotifyNewBundle(bp BundleDescriptor) {
 	}
 }
 
-func (_ *DTLSR) ReportFailure(_ BundleDescriptor, _ cla.ConvergenceSender) {
-	// if the transmission failed, that is sad, but there is really nothing to do...
+func (dtlsr *DTLSR) ReportFailure(bp BundleDescriptor, sender cla.ConvergenceSender) {
+	// Unicast bundles stay in the store and are tried again via the routing table. For broadcast bundles, the failed
+	// peer must be removed from the list of already served peers, otherwise it would never be served again.
+	dtlsr.sentMutex.Lock()
+	defer dtlsr.sentMutex.Unlock()
+
+	bundleItem, err := dtlsr.c.store.QueryId(bp.Id)
+	if err != nil {
+		return
+	}
+
+	sentEids, ok := bundleItem.Properties["routing/dtlsr/sent"].([]bpv7.EndpointID)
+	if !ok {
+		return
+	}
+
+	for i := 0; i < len(sentEids); i++ {
+		if sentEids[i] == sender.GetPeerEndpointID() {
+			sentEids = append(sentEids[:i], sentEids[i+1:]...)
+			break
+		}
+	}
+
+	bundleItem.Properties["routing/dtlsr/sent"] = sentEids
+	if err := dtlsr.c.store.Update(bundleItem); err != nil {
+		log.WithFields(log.Fields{
+			"error": err,
+		}).Warn("Updating BundleItem failed")
+	}
 }
 
 func (dtlsr *DTLSR) SenderForBundle(bp BundleDescriptor) (sender []cla.ConvergenceSender, delete bool) {
@@ -231,6 +260,9 @@ func (dtlsr *DTLSR) SenderForBundle(bp BundleDescriptor) (sender []cla.Convergen
 	}
 
 	if bndl.PrimaryBlock.Destination == dtlsr.broadcastAddress {
+		dtlsr.sentMutex.Lock()
+		defer dtlsr.sentMutex.Unlock()
+
 		bundleItem, err := dtlsr.c.store.QueryId(bp.Id)
 		if err != nil {
 			log.WithFields(log.Fields{
